@@ -20,7 +20,8 @@ RULE = ("ice in {Antarctic, Greenland, two custom exponential profiles} x source
 ASSUMPTIONS = ["RK4 eikonal marcher with 4000 steps (6000 thorough) is the reference; tolerances per conditioning class W/N/D as derived in DESIGN C01",
                "the true exponential profile is integrated also below z_uniform, where the tracer treats the ice as uniform by design "
                "(tolerance 2e-4 instead of 3e-5 for paths crossing z_uniform)",
-               "Basic tracer: tolerances = 3 x the calibrated lattice-wide maxima per dz, plus convergence of the maxima with dz"]
+               "Basic tracer: tolerances = 3 x the calibrated lattice-wide maxima per dz, plus convergence of the maxima with dz; for direct rays "
+               "that stay steep (|cos| >= 0.3 at both ends) 5 x the maxima measured on that class (second-order accurate there)"]
 CHUNK = 1
 
 DEPTHS = [-1.0, -5.0, -20.0, -60.0, -100.0, -150.0, -200.0, -400.0, -800.0, -1500.0, -2500.0]
@@ -30,6 +31,12 @@ ICES = {"antarctic": ("AntarcticIce", {}), "greenland": ("GreenlandIce", {}),
 # Basic tracer: 3 x calibrated maxima (miss [m], relative path length / tof, direction [rad]) per dz
 # calibrated on the full thorough lattice (Antarctic + Greenland, 3468 rays): observed maxima
 #   dz=0.25: 0.76 m / 2.3e-3 / 4.7e-3;  dz=1: 12.7 m / 1.8e-2 / 8.2e-2;  dz=4: 20.1 m / 1.5e-2 / 0.2
+# receiver depths whose distance to the (integral) source depths is not a whole number of integration steps
+BASIC_EXTRA_DEPTHS = [-95.8, -420.3]
+# Basic tracer, direct rays that stay steep (|cos| of the angle to the vertical >= 0.3 at both ends): second-order accurate,
+# measured maxima on the thorough lattice (incl. the extra depths): dL, dT <= 2.9e-7 / 9.1e-6 / 9.8e-5 and miss <= 5.5e-4 / 8.7e-3 /
+# 0.14 m at dz = 0.25 / 1 / 4 -- tolerances 5 x that (relative length and time, miss in m)
+BASIC_STEEP_TOL = {0.25: (5e-6, 3e-3), 1.0: (5e-5, 0.05), 4.0: (5e-4, 0.7)}
 BASIC_TOL = {0.25: (2.3, 7e-3, 1.5e-2), 1.0: (38.0, 5.5e-2, 0.25), 4.0: (60.0, 4.5e-2, 0.6)}
 
 
@@ -80,7 +87,7 @@ def evaluate(case):
     phi = 0.6435011087932844       # direction of the horizontal offset (3-4-5 triangle, not axis aligned)
     cph, sph = 0.8, 0.6
     only = case.get("only")
-    for z_to in DEPTHS:
+    for z_to in (DEPTHS + BASIC_EXTRA_DEPTHS if is_basic else DEPTHS):
         if is_basic and abs(z_to - z_from) < 20 * case["dz"]:
             continue
         rhos = list(RHOS)
@@ -242,6 +249,13 @@ def evaluate(case):
         if is_basic:
             tm, tl, td = BASIC_TOL[case["dz"]]
             tol_miss, tol_L, tol_dir = tm, tl, td
+            steep = bool(direct and abs(e[2]) >= 0.3 and abs(r[2]) >= 0.3)
+            if steep and region == "W":
+                tol_L, tol_miss = BASIC_STEEP_TOL[case["dz"]]
+                stats["steep_max_dL"] = max(stats.get("steep_max_dL", 0.0), dL)
+                stats["steep_max_dT"] = max(stats.get("steep_max_dT", 0.0), dT)
+                stats["steep_max_miss"] = max(stats.get("steep_max_miss", 0.0), miss)
+                stats["steep_rays"] = stats.get("steep_rays", 0) + 1
         else:
             if tags["crosses_z_uniform"]:
                 # below z_uniform the tracer treats the ice as uniform by design; the oracle integrates the true profile
